@@ -18,13 +18,20 @@ POLICIES = ['uniform', 'lifo', 'fifo', 'starve']
 class Knobs:
 	"""What the simulator decides for one command."""
 
-	def __init__(self, ch, label, n_tasks_hint=6, with_chunk=True, nrefs=10):
+	def __init__(self, ch, label, n_tasks_hint=6, with_chunk=True, nrefs=10, faults=False):
 		self.policy = ch.pick(POLICIES, label + '.policy')
 		self.starve = ch.int(0, max(0, n_tasks_hint - 1), label + '.starve') if self.policy == 'starve' else None
 		self.machine = ch.int(1, 16, label + '.machine')
 		self.tpol = ch.pick(omp.THREAD_POLICIES, label + '.tpol')
 		self.opol = ch.pick(omp.ORDER_POLICIES, label + '.opol')
 		self.omp_seed = ch.subseed(label + '.omp_seed')
+		# at most one fault per command; most commands have none (the system must make progress between faults)
+		self.fault = None
+		if faults:
+			self.fault = ch.weighted([(None, 17), ('die', 1), ('eio_transient', 1), ('eio', 1)], label + '.fault')
+			if self.fault is not None:
+				self.fault_target = ch.int(0, max(0, n_tasks_hint - 1), label + '.fault_target')
+				self.fault_at = ch.int(1, 3, label + '.fault_at')
 		self.chunksize = None
 		if with_chunk:
 			self.chunksize = ch.pick([1000, None, 'small'], label + '.chunk')
@@ -32,12 +39,16 @@ class Knobs:
 				self.chunksize = ch.int(1, max(1, nrefs + 2), label + '.cs')
 
 	def describe(self):
-		return dict(policy=self.policy, machine=self.machine, tpol=self.tpol, opol=self.opol, chunksize=self.chunksize)
+		d = dict(policy=self.policy, machine=self.machine, tpol=self.tpol, opol=self.opol, chunksize=self.chunksize)
+		if getattr(self, 'fault', None):
+			d['fault'] = (self.fault, self.fault_target, self.fault_at)
+		return d
 
 
 @contextlib.contextmanager
-def simulated(ctx, knobs, short_paths=None, short_seed=0):
-	"""Activate S1 (pool), S2 (OpenMP hand-out) and S4 (short reads) for the duration of a block."""
+def simulated(ctx, knobs, short_paths=None, short_seed=0, fault_paths=None):
+	"""Activate S1 (pool), S2 (OpenMP hand-out) and S4 (short reads, read faults) for the duration of a block.
+	fault_paths: the input files of this command, in input order (target of a drawn read fault)."""
 	sx.install()
 	iosim.install()
 	sim = sx.Sim(ctx, machine_size=knobs.machine, policy=knobs.policy, starve=knobs.starve)
@@ -46,16 +57,27 @@ def simulated(ctx, knobs, short_paths=None, short_seed=0):
 		rng = random.Random(short_seed)
 		for p in sorted(short_paths):
 			plan.set(p, short=rng.randrange(2 ** 32))
+	fault = getattr(knobs, 'fault', None)
+	nf0 = sum(ctx.faults.values())
+	if fault == 'die':
+		sim.task_faults = {knobs.fault_target: 'die'}
+	elif fault in ('eio', 'eio_transient') and fault_paths:
+		fp = os.path.abspath(fault_paths[knobs.fault_target % len(fault_paths)])
+		spec = dict(plan.files.get(fp, {}))
+		spec.update(eio_at=knobs.fault_at, transient=(fault == 'eio_transient'))
+		plan.files[fp] = spec
 	sx.activate(sim)
 	iosim.activate(plan)
 	armed = omp.Armed(ctx, knobs.omp_seed, knobs.tpol, knobs.opol) if omp.available() else contextlib.nullcontext()
+	holder = SimHandle(sim, None)
 	try:
 		with armed as a:
-			holder = SimHandle(sim, a)
+			holder.armed = a
 			yield holder
 	finally:
 		iosim.deactivate()
 		sx.deactivate()
+		holder.fault_fired = sum(ctx.faults.values()) > nf0
 	if omp.available():
 		holder.omp_sig = a.sig
 		holder.omp_stats = a.stats
@@ -68,6 +90,7 @@ class SimHandle:
 		self.armed = armed
 		self.omp_sig = None
 		self.omp_stats = None
+		self.fault_fired = False
 
 
 @contextlib.contextmanager
@@ -175,9 +198,9 @@ def in_dir(path):
 		os.chdir(old)
 
 
-def run_cli(ctx, args, knobs, short_paths=None, short_seed=0, chunk=False, cwd=None, ch=None, label=None):
+def run_cli(ctx, args, knobs, short_paths=None, short_seed=0, chunk=False, cwd=None, ch=None, label=None, fault_paths=None):
 	"""Run one gambit command under the simulator. Returns (cli.Result, SimHandle)."""
-	with simulated(ctx, knobs, short_paths, short_seed) as h:
+	with simulated(ctx, knobs, short_paths, short_seed, fault_paths) as h:
 		with (chunk_knob(knobs.chunksize) if chunk else contextlib.nullcontext()), in_dir(cwd), \
 				(knob_defaults(ctx, ch, label) if ch is not None else contextlib.nullcontext()) as kd:
 			res = cliseam.run(args)
